@@ -213,6 +213,9 @@ def realpipe(task, repo):
     sched = task.get("sched") or props.get(task["gen"]["prop"]).gen_sched(task["gen"])
     sched = dict(sched, want_out=True, faults=[], buggify=[], chunks=None, order=None, pool={},
                  strict_edits=False, release_version=None)
+    if task.get("nthreads"):
+        # exercise the real multiprocessing.Pool at different worker counts against SimPool
+        sched["argv"] = [a for a in sched.get("argv", [])] + ["--nthreads", str(task["nthreads"])]
     sched["ops"] = [{k: v for k, v in op.items() if k != "cut"} for op in sched["ops"] if op["k"] == "msg"]
 
     def norm(fr):
